@@ -72,7 +72,20 @@ def thresholds(tier):
   return THOROUGH_THRESHOLDS
 
 
-THOROUGH_THRESHOLDS = {"accumulator.contract_evals": 30000, "adder.contract_evals": 14000, "merge.contract_evals": 6000}
+# thorough, seed 0 measured: 1.04M accumulator, 196k adder, 142k merge contract evaluations; 19.0M + 20.2M +
+# 10.9M sums / values; 1.4M monotonicity pairs
+THOROUGH_THRESHOLDS = {
+    "accumulator.contract_evals": 340000, "accumulator.sums_checked": 6300000,
+    "accumulator.brute_force_multisets": 1000000, "accumulator.float": 38000,
+    "accumulator.terms_power_of_two": 130000, "accumulator.terms_power_of_two_plus_1": 110000,
+    "accumulator.terms_at_least_2^16": 73000,
+    "adder.contract_evals": 65000, "adder.type_pairs": 63000, "adder.sums_checked": 6700000,
+    "adder.brute_force_type_pairs": 19000, "adder.brute_force_sums": 5300000,
+    "adder.bias_on_accumulator": 4000, "adder.float": 1400,
+    "merge.contract_evals": 47000, "merge.values_checked": 2300000, "merge.sums_checked": 1200000,
+    "merge.brute_force_type_pairs": 21000,
+    "resolution_range_checked": 410000, "monotone_pairs_checked": 460000,
+    "distinct_nontrivial": 120000}
 
 
 # ------------------------------------------------------------ workload
